@@ -47,18 +47,6 @@ def grammarOf (g : String) : Option (Grammar × Nat) :=
 
 def fuelFor (n : Nat) : Nat := 400 + 60 * n
 
-/-- keywords SQLite does not accept as a bare table alias (the parser has no identifier fallback for
-    them). The table was read off the engine with the `alias` op over the full keyword list of the SQLite
-    documentation and is re-validated by every run (any difference is a model/implementation disagreement). -/
-def reservedAlias : List String :=
-  ["add", "all", "alter", "and", "as", "autoincrement", "between", "case", "cast", "check", "collate",
-   "commit", "constraint", "create", "cross", "current_date", "current_time", "current_timestamp",
-   "default", "deferrable", "delete", "distinct", "drop", "else", "escape", "except", "exists", "foreign",
-   "from", "full", "group", "having", "in", "index", "indexed", "inner", "insert", "intersect", "into",
-   "is", "isnull", "join", "left", "limit", "natural", "not", "nothing", "notnull", "null", "on", "or",
-   "order", "outer", "primary", "raise", "references", "returning", "right", "select", "set", "table",
-   "then", "to", "transaction", "union", "unique", "update", "using", "values", "when", "where"]
-
 def kv' (toks : List String) (k : String) : Option String :=
   toks.findSome? fun t =>
     match t.splitOn "=" with
@@ -140,7 +128,8 @@ def step (d : Adm.Defects) (line : String) : Option String :=
       | none => some "fuel"
       | some false => some "reject"
       | some true =>
-        some (if Adm.bareAliasOk (reservedAlias.map String.toList) a.toLower.toList a.toList then "ok" else "sqlerr")
+        some (match Adm.aliasOutcome a.toList with
+              | .invalidName => "err:InvalidName" | .ok => "ok" | .sqlError => "sqlerr")
     | none => some "bad-op"
   | "vpool" :: rest =>
     match nat? rest "n", nat? rest "k" with
